@@ -178,7 +178,7 @@ def run_scenario(sc: dict[str, Any]) -> dict[str, Any]:
         if not stall and ops:       # the watchers of the handled kind (the ones a pause closes) as step traces of Streaming.tla
             from vf import streaming
             steps = streaming.segments(sim.recorder.events, streaming.conf_from_settings(next(iter(ops.values())).settings), sc['id'],
-                                       plurals=({PLURAL, PEER} if not (lag or plag) else {PLURAL}), pausable={PLURAL})      # (answers that take time are not in the step model)
+                                       plurals=({PLURAL, PEER} if not (lag or plag) else {PLURAL}), pausable={PLURAL, 'widgets'})      # (answers that take time are not in the step model)
         return {'id': sc['id'], 'conf': conf_of(sc), 'events': events, 'stall': stall, 'scenario': sc, 'steps': steps}
     finally:
         kpeering.random = saved_random
@@ -430,8 +430,22 @@ def run_dims(sc: dict[str, Any]) -> dict[str, Any]:
             sim.rec('env.unserve', d=ns)
         for ns in sc['init']:
             nsadd(ns)
+        # a second served kind that comes and goes while the operator runs: the pause is about peerings, not about kinds
+        widgets = ResDef(GROUP, VERSION, 'widgets', 'Widget', namespaced=True)
+        kinds: set[str] = set()
+
+        def kadd() -> None:
+            if 'widgets' in kinds: return
+            sim.srv.add_resource(widgets, announce=True); kinds.add('widgets'); sim.rec('env.kind', d='widgets', there=True)
+
+        def kdel() -> None:
+            if 'widgets' not in kinds: return
+            sim.srv.remove_resource(widgets); kinds.discard('widgets'); sim.rec('env.kind', d='widgets', there=False)
+        if sc.get('widgets'):
+            kadd()
         reg = sim.registry()
         kopf.on.event(GROUP, VERSION, PLURAL, registry=reg, id='see')(sim.handler('see', kind='event'))
+        kopf.on.event(GROUP, VERSION, 'widgets', registry=reg, id='seew')(sim.handler('seew', kind='event'))
         op = sim.operator('a', reg, sim.settings(peering__lifetime=12, watching__reconnect_backoff=1),
                           peering_name='default', priority=1, identity='a', clusterwide=False, namespaces=['ns*'])
 
@@ -449,14 +463,14 @@ def run_dims(sc: dict[str, Any]) -> dict[str, Any]:
             sim.rec('env.rest', watching=any(w.res.plural == PLURAL and w.session.owner == 'a' for w in sim.srv.watches))
 
         def do(opn: str, *a: Any) -> None:
-            {'nsadd': nsadd, 'nsdel': nsdel, 'ext': ext, 'rest': rest}[opn](*a)
+            {'nsadd': nsadd, 'nsdel': nsdel, 'ext': ext, 'rest': rest, 'kadd': kadd, 'kdel': kdel}[opn](*a)
         for (t, opn, *a) in sc['env']:
             sim.world.at(t, (lambda opn=opn, a=a: do(opn, *a)), 1)
         stall = False
         try:
             sim.run(sc['end']); rest()
             from vf import streaming
-            steps = streaming.segments(sim.recorder.events, streaming.conf_from_settings(op.settings), sc['id'], end_t=sc['end'], pausable={PLURAL})
+            steps = streaming.segments(sim.recorder.events, streaming.conf_from_settings(op.settings), sc['id'], end_t=sc['end'], pausable={PLURAL, 'widgets'})
             op.finish()
         except Stall:
             stall = True; steps = []
@@ -465,6 +479,7 @@ def run_dims(sc: dict[str, Any]) -> dict[str, Any]:
             elif e['ev'] == 'env.unserve': events.append({'ev': 'unserve', 'd': e['d']})
             elif e['ev'] == 'peer.eval' and e.get('loop') == 'a': events.append({'ev': 'eval', 'd': e.get('ns') or '*', 'paused': bool(e.get('paused'))})
             elif e['ev'] == 'env.rest': events.append({'ev': 'rest', 'watching': e['watching']})
+            elif e['ev'] == 'env.kind': events.append({'ev': 'kind', 'd': e['d'], 'there': e['there']})
         return {'id': sc['id'], 'events': events, 'stall': stall, 'scenario': sc, 'steps': steps}
     finally:
         sim.close()
@@ -474,17 +489,22 @@ def gen_dims(seed: int, n: int) -> list[dict[str, Any]]:
     rnd = random.Random(f'dims-{seed}')
     out = [{'id': 'dims-crafted-0', 'init': ['ns1', 'ns2'], 'env': [(10, 'ext', 'ns2', 'block'), (25, 'rest'), (30, 'nsdel', 'ns2'), (50, 'rest')], 'end': 70},
            {'id': 'dims-crafted-1', 'init': ['ns1', 'ns2'], 'env': [(10, 'ext', 'ns2', 'block'), (20, 'ext', 'ns1', 'block'), (30, 'nsdel', 'ns2'), (50, 'rest'),
-                                                                    (55, 'ext', 'ns1', 'free'), (70, 'rest')], 'end': 90}]
+                                                                    (55, 'ext', 'ns1', 'free'), (70, 'rest')], 'end': 90},
+           {'id': 'dims-crafted-kind-0', 'init': ['ns1', 'ns2'], 'widgets': True,
+            'env': [(10, 'ext', 'ns2', 'block'), (25, 'rest'), (30, 'kdel'), (50, 'rest'), (55, 'ext', 'ns2', 'free'), (70, 'rest'), (75, 'ext', 'ns1', 'block'), (90, 'rest')], 'end': 100},
+           {'id': 'dims-crafted-kind-1', 'init': ['ns1'], 'widgets': False,
+            'env': [(10, 'ext', 'ns1', 'block'), (20, 'kadd'), (35, 'rest'), (40, 'kdel'), (55, 'rest'), (60, 'ext', 'ns1', 'free'), (75, 'rest')], 'end': 90}]
     for k in range(n):
         env: list[tuple] = []; t = 5
         for _ in range(rnd.randint(2, 7)):
             t += rnd.choice([1, 3, 8, 15])
-            opn = rnd.choice(['ext', 'ext', 'ext', 'nsdel', 'nsadd'])
+            opn = rnd.choice(['ext', 'ext', 'ext', 'nsdel', 'nsadd', 'kind'])
             ns = rnd.choice(['ns1', 'ns2', 'ns3'])
-            env.append((t, 'ext', ns, rnd.choice(['block', 'block', 'free']))) if opn == 'ext' else env.append((t, opn, ns))
+            if opn == 'kind': env.append((t, rnd.choice(['kadd', 'kdel'])))
+            else: env.append((t, 'ext', ns, rnd.choice(['block', 'block', 'free']))) if opn == 'ext' else env.append((t, opn, ns))
             if rnd.random() < 0.5:
                 t += 15; env.append((t, 'rest'))
-        out.append({'id': f'dims-{seed}-{k}', 'init': rnd.sample(['ns1', 'ns2', 'ns3'], rnd.randint(1, 3)), 'env': env, 'end': t + 20})
+        out.append({'id': f'dims-{seed}-{k}', 'init': rnd.sample(['ns1', 'ns2', 'ns3'], rnd.randint(1, 3)), 'env': env, 'end': t + 20, 'widgets': rnd.random() < 0.5})
     return out
 
 
